@@ -51,6 +51,15 @@ CLAIMS = {
             "iteration that sets it - nothing is dispatched, whatever events follow (ready, finished, crashed workers incl. replacement within the budget); the run is interrupted iff a "
             "reason was set; a reason is set only by --maxfail failed reports or a worker ending with fail-fast/stop/keyboard interrupt",
             "invariant (ShutInv) + frame lemmas by case analysis over all handlers, induction over the event list, per-scheduler quietness lemmas (Lean 4) ; whole-system simulation on the real stack with the stop decision observed at the moment DSession.shouldstop is assigned"),
+    "C17": ("Lean theorems: the receiver (process_from_remote model, any message stream) passes on exactly the events before the first terminating message and then one notice, "
+            "nothing of a written-off worker afterwards, an undecodable message marks the worker down at once; worker_errordown (any scheduler): a death the scheduler does not know is "
+            "swallowed, counted and replaced per budget; it can raise only if remove_node raises something other than KeyError, the crash hook raises, or the node is not active. "
+            "Partial: no-stand-off and exactly-once after lifecycle crashes are validated by the whole-system simulation, not proved",
+            "receiver model theorems by induction over the message stream, handler case analysis (Lean 4) ; differential correspondence of the real process_from_remote; whole-system simulation with deaths at every lifecycle point and undecodable messages"),
+    "C04": ("Lean theorems: per worker the receiver posts the worker's events exactly once in the order sent; a test report is published tagged with its worker and counted once; "
+            "for any sequence of collection reports from any workers the published ones are the distinct texts in first-occurrence order, each counted once. Partial: field fidelity of "
+            "reports and the tally equality with a single-process run are validated on real runs",
+            "induction over message / report sequences (Lean 4) ; differential correspondence of the receiver and of DSession; end-to-end runs compared with -n0 (tallies, ids, fields, exit status, per-worker order)"),
 }
 
 NOT_YET = {}
